@@ -98,9 +98,9 @@ def _case(rng, t):
         for name in ("x", "y"):
             if rng.random() < 0.6:
                 attrs.append([l, name, rng.choice(VALUES)])
-    cls = rng.choice(["nm", "nm", "nm", "light", "falsy"])
-    if cls == "light":
-        attrs = []                                   # a fully slotted class: `label` is its only data attribute
+    cls = rng.choice(["nm", "nm", "nm", "light", "falsy", "eq"])
+    if cls in ("light", "eq"):
+        attrs = []                                   # classes without the extra attributes: `label` is the only data attribute
     else:
         attrs += [[l, "kind", "plain"] for l in labs]    # class-level default of the harness class
     # every node has a `label` attribute and the navigation properties: mirror them in the table
